@@ -4,7 +4,7 @@
    with a row pitch; `block_image` for block formats.  The implementation is compared with
    blit(prefill, crop(rect, map chmap (native full decode))) for all 73 formats (harness tag 5). *)
 From Coq Require Import ZArith List Bool Lia.
-From DDSV Require Import base.Machine model.Layout model.DecodeScript model.Crop model.RectPath model.PixelPath model.BiPlanarPath proofs.CropProofs proofs.RectPathProofs proofs.PixelPathProofs proofs.BiPlanarProofs.
+From DDSV Require Import base.Machine model.Layout model.DecodeScript model.Crop model.RectPath model.PixelPath model.BiPlanarPath model.LineBuffer proofs.LineBufferProofs proofs.CropProofs proofs.RectPathProofs proofs.PixelPathProofs proofs.BiPlanarProofs.
 Import ListNotations.
 Local Open Scope Z_scope.
 
@@ -150,6 +150,18 @@ Example C05_bi_planar_ex :
   = Some [[80251; 90271; 100271; 110291]; [140310; 150330; 160330; 170350]]%Z.
 Proof. vm_compute. reflexivity. Qed.
 
+(* ---- UntypedLineBuffer (model/LineBuffer.v): whatever the number of lines per refill, next_line returns the lines of the
+   region one after the other - line i is bytes [pos + i * bpl, pos + (i + 1) * bpl) - and the reader ends at
+   pos + height * bpl.  This is the premise `line i of the buffer = block line first + i` of the models above. *)
+Theorem C05_line_buffer : forall (bpl lib : nat) (data : list Z), (1 <= bpl)%nat -> (1 <= lib)%nat ->
+  forall height pos : nat, (pos + height * bpl <= length data)%nat ->
+  lb_lines bpl lib height pos data = (map (fun i => slice (pos + i * bpl) bpl data) (seq 0 height), (pos + height * bpl)%nat).
+Proof. exact lb_lines_spec. Qed.
+(* R1_UNORM (process_8x1_blocks_helper) is general_process_blocks at block size 8 x 1 *)
+Theorem C05_process_8x1_blocks_ok : forall (A : Type) (bpb : nat) (dec : list Z -> list A), (1 <= bpb)%nat ->
+  (forall b, length (dec b) = 8 * 1)%nat -> rowfn_ok A 8 1 dec (gpb_row A 8 dec).
+Proof. exact gpb_row_8x1_ok. Qed.
+
 (* non-vacuity: a 7 x 6 surface of 4 x 4 blocks, conversion through a 40-byte buffer, rectangle (2, 1, 5, 4) *)
 Example C05_rect_path_ex :
   let dec := fun b : list Z => map (fun i => (hd 0 b * 100 + Z.of_nat i)%Z) (seq 0 16) in
@@ -164,5 +176,5 @@ Proof. reflexivity. Qed.
 
 Definition C05_all := (C05_chmap_via_rgba, C05_chmap_id, C05_chmap_length, C05_crop_pixel, C05_crop_crop, C05_crop_map_px,
   C05_blit_outside, C05_blit_covered, C05_block_pixel_local, C05_block_rect_script_rows, C05_rect_block_rows_cover, C05_rect_block_rows_minimal,
-  C05_rect_path_is_crop, C05_full_path_is_spec, C05_general_process_blocks_ok, C05_process_4x4_blocks_ok, C05_process_2x1_blocks_ok, C05_spec_image_pixel, C05_buffer_fits, C05_pixel_rect_is_crop, C05_pixel_full_is_spec, C05_bi_planar_rect_is_crop, C05_bi_planar_full_is_spec, C05_bi_planar_helper_ok).
+  C05_rect_path_is_crop, C05_full_path_is_spec, C05_general_process_blocks_ok, C05_process_4x4_blocks_ok, C05_process_2x1_blocks_ok, C05_spec_image_pixel, C05_buffer_fits, C05_pixel_rect_is_crop, C05_pixel_full_is_spec, C05_bi_planar_rect_is_crop, C05_bi_planar_full_is_spec, C05_bi_planar_helper_ok, C05_line_buffer, C05_process_8x1_blocks_ok).
 Redirect "props/C05.assumptions" Print Assumptions C05_all.
